@@ -61,6 +61,12 @@ def make_gen(env, spec):
     return g, gen_point(env, g)
 
 
+def hsel(*parts):
+    """uniform selector derived from already drawn values.  Hypothesis' own choices (sampled_from / one_of) are far from i.i.d. within one run - a 1/20 class can
+    come up once in 500 cases - so the classes a property must cover are selected by a hash of a drawn seed instead (still a pure function of the drawn data)."""
+    return ec.b2i(ec.sha256(repr(parts).encode())[:8])
+
+
 def weighted(draw, choices):
     """draw from [(weight, strategy), ...] with the stated integer weights (st.one_of de-duplicates repeated identical strategies, so repetition is no weight)"""
     idx = draw(st.sampled_from([i for i, (w, _) in enumerate(choices) for _ in range(w)]))
